@@ -4,7 +4,8 @@ import Kolibrie.Model.Rsp
 import Kolibrie.Spec.Rsp
 /-
 Driver for C10.  Request: `rsp <S|M|M<seed>> <R|I|D> <width> <slide> <query> <rules> <event>…`
-  mode   = `S` single-thread | `M` multi-thread | `M<seed>` multi-thread with seeded schedule perturbation (harness only)
+  mode   = `S` single-thread | `M` multi-thread | `M<seed>` multi-thread with seeded schedule perturbation | `MG` multi-thread
+           burst with a gated consumer (harness only)
   query  = `t,t,t;t,t,t…`  (term: `vN` variable | `N` constant id)
   rules  = `-` | `body=>head|body=>head…` (body/head = patterns as in query)
   event  = `ts:s,p,o` (one triple arriving at time ts) | `STOP` (engine.stop(): flush, then stop)
@@ -93,7 +94,7 @@ def handle (args : List String) : String :=
   | mode :: op :: w :: s :: q :: rs :: evs =>
     match parseOp op, w.toNat?, s.toNat?, parsePats q, parseRules rs, evs.mapM parseEv with
     | some op, some width, some slide, some pats, some rules, some evs =>
-      if (mode != "S" && !(mode.startsWith "M" && ((mode.drop 1).isEmpty || (mode.drop 1).toNat?.isSome))) || width == 0 || slide == 0 || pats.isEmpty then "bad-request" else
+      if (mode != "S" && mode != "MG" && !(mode.startsWith "M" && ((mode.drop 1).isEmpty || (mode.drop 1).toNat?.isSome))) || width == 0 || slide == 0 || pats.isEmpty then "bad-request" else
       let hist := firedContents width slide evs WState.init false
       if !allClosed rules hist then "fuel" else
       let cfg := mkCfg rules fuel pats op Kolibrie.Extracted.r2rAddDropsDerived
